@@ -5,16 +5,16 @@ LEVEL_TEXT = ("Flow contracts: the real bodies of the high-level bign functions 
 from engine import G
 
 ENV = ["src/crypto/bign/bign_sign.c", "src/crypto/bign/bign_misc.c", "src/crypto/bign/bign_keyt.c", "src/crypto/bign/bign_ibs.c",
-       "src/crypto/bign/bign_lcl.c", "src/math/ww.c", "src/math/zz/zz_add.c", "src/math/zz/zz_mul.c", "src/crypto/belt/belt_compr.c", "src/crypto/belt/belt_wbl.c",
+       "src/crypto/bign/bign_lcl.c", "src/math/ww.c", "src/math/zz/zz_add.c", "src/math/zz/zz_mul.c", "src/crypto/belt/belt_compr.c", "src/crypto/belt/belt_wbl.c", "src/math/qr.c",
        "src/math/ec.c", "src/math/ecp.c", "src/crypto/belt/belt_hash.c", "src/core/mem.c", "src/core/u64.c", "src/core/u32.c", "src/core/util.c"]
 STRIP = {"bign/bign_lcl.c": ["bignStart", "bignStart_keep"], "zz/zz_mul.c": ["zzMul", "zzMod"], "math/ec.c": ["!_deep$|^ecNAFWidth$"],
-         "math/ecp.c": ["!^ecpIsOnA_deep$"], "belt/belt_compr.c": ["!_deep$"], "belt/belt_wbl.c": ["!_keep$"], "belt/belt_hash.c": ["beltHash_keep", "beltHashStart", "beltHashStepH", "beltHashStepG", "beltHashStepG2", "beltHashStepV", "beltHashStepV2"]}
+         "math/ecp.c": ["!^ecpIsOnA_deep$"], "belt/belt_compr.c": ["!_deep$"], "belt/belt_wbl.c": ["!_keep$"], "math/qr.c": ["!_deep$|^qrCalcSlideWidth$"], "belt/belt_hash.c": ["beltHash_keep", "beltHashStart", "beltHashStepH", "beltHashStepG", "beltHashStepG2", "beltHashStepV", "beltHashStepV2"]}
 GROUPS = []
-FN = dict(sign="bignSign", verify="bignVerify", keypairgen="bignKeypairGen", keypairval="bignKeypairVal", pubkeyval="bignPubkeyVal", pubkeycalc="bignPubkeyCalc", dh="bignDH", sign2="bignSign2", idsign2="bignIdSign2", idsign="bignIdSign", idextract="bignIdExtract", keywrap="bignKeyWrap")
+FN = dict(sign="bignSign", verify="bignVerify", keypairgen="bignKeypairGen", keypairval="bignKeypairVal", pubkeyval="bignPubkeyVal", pubkeycalc="bignPubkeyCalc", dh="bignDH", sign2="bignSign2", idsign2="bignIdSign2", idsign="bignIdSign", idextract="bignIdExtract", keywrap="bignKeyWrap", keyunwrap="bignKeyUnwrap")
 for l in (128, 192, 256):
-    for f in ("sign", "verify", "keypairgen", "keypairval", "pubkeyval", "pubkeycalc", "dh", "sign2", "idsign2", "idsign", "idextract", "keywrap"):
-        slow = (f == "dh" and l == 256) or (f in ("sign2", "idsign2") and l != 128)
-        for tv in ((0, 1) if f in ("sign2", "idsign2", "keywrap") else (None,)):
+    for f in ("sign", "verify", "keypairgen", "keypairval", "pubkeyval", "pubkeycalc", "dh", "sign2", "idsign2", "idsign", "idextract", "keywrap", "keyunwrap"):
+        slow = (f == "dh" and l == 256) or (f in ("sign2", "idsign2", "keywrap", "keyunwrap", "idsign", "idextract") and l != 128)
+        for tv in ((0, 1) if f in ("sign2", "idsign2", "keywrap", "keyunwrap") else (None,)):
             GROUPS.append(G("flow.%s.l%d%s" % (f, l, "" if tv is None else ".t%d" % tv), "harness/C02/flow.c", "h_" + f, ENV,
                             defs=["L=%d" % l] + ([] if tv is None else ["HAVE_T=%d" % tv]), stubs=["stubs/bign_env.c"], strip=STRIP,
                             level="B", bound="security level l = %d (operand size fixed, contents symbolic); callees below the function replaced by their contracts%s"
@@ -37,4 +37,4 @@ ASSUMPTIONS = ["assumed contracts of the replaced callees (stubs/bign_env.c): bi
                "security level / operand size concrete per group; deterministic-signing model: at most three belt-wbl rounds"]
 TRUSTED = ["stubs/bign_env.c", "harness/ref.h"]
 NOT_COVERED = ["the algebra below the stubs: group law, field arithmetic, belt-hash, belt-wbl / KWP (C05, C01 and C06 territory)",
-               "bignKeyUnwrap / bignIdVerify: native search only; bignKeyWrap: key length 24 only"]
+               "bignIdVerify: native search only; bignKeyWrap / bignKeyUnwrap: key length 24 only"]
